@@ -1,6 +1,7 @@
 -- Root of the `TgModel` library: models, lemmas and one property file per claimed property.
 import TgModel.Props.C01
 import TgModel.Props.C02
+import TgModel.Props.C04
 import TgModel.Props.C06
 import TgModel.Props.C07
 import TgModel.Props.C08
